@@ -43,7 +43,8 @@ MANIFEST = dict(
          "the bound, under the tiling hypothesis). Commit string vs result: key_step_cases / no_phantom_commit / "
          "commit_has_text / commit_string_iff_result (every arm of all four states), api_* for the calls. Histories: every "
          "public operation is split into editing part and commit path (editPart / emitted / accepted); step_accounts "
-         "(exactly three shapes of a step: nothing emitted / one key committed directly / a leading part of the conversion "
+         "(exactly three shapes of a step: nothing emitted / one key committed directly — and then it is the key's own "
+         "character, its full-width form or a space, DirectChar — / a leading part of the conversion "
          "of the edited buffer pushed out — by Enter, commit(), overflow after a key, overflow after select(n)), "
          "emitted_was_displayed, step_ledger / step_remaining, and history_ledger by induction over operation lists: the "
          "characters of all commit strings plus the final pre-edit equal the initial pre-edit plus every accepted "
